@@ -591,7 +591,19 @@ impl<'s> Run<'s> {
             obs.borrow_mut().event(ev::SWITCH, pick as u64);
             flags[pick].0.store(false, Ordering::Relaxed);
             let mut cx = Context::from_waker(&wakers[pick]);
-            let done = tasks[pick].as_mut().unwrap().as_mut().poll(&mut cx).is_ready();
+            // a panic inside the OTHER side's task (a tree whose writer is broken, judged for its reader, or the reverse)
+            // makes the run inconclusive for this property instead of being charged to it
+            let polled = std::panic::catch_unwind(std::panic::AssertUnwindSafe(|| tasks[pick].as_mut().unwrap().as_mut().poll(&mut cx).is_ready()));
+            let done = match polled {
+                Ok(d) => d,
+                Err(payload) => {
+                    let culprit = if pick == 0 { Side::Writer } else { Side::Reader };
+                    if culprit != side {
+                        return Ok(());
+                    }
+                    std::panic::resume_unwind(payload);
+                }
+            };
             if done {
                 tasks[pick] = None;
             }
